@@ -34,6 +34,8 @@ pub enum Op {
   Unsubscribe,
   /// unsubscribe the source subject A itself (through a clone)
   UnsubSubject,
+  /// `retain()` on the source subject (housekeeping: prune closed subscribers)
+  Retain,
   /// ask the pre-made subscription whether it is closed (only in scripts
   /// without `Unsubscribe`: the handle stays where it is)
   IsClosed,
@@ -227,6 +229,7 @@ fn run_op(sh: &Arc<Shared>, thread: usize, op: Op) {
       sh.late_probes.lock().unwrap().push((p, start, end));
     }
     Op::UnsubSubject => sh.a.clone().unsubscribe(),
+    Op::Retain => sh.a.clone().retain(),
     Op::IsClosed => {
       // nobody takes the handle in a script that samples it: borrow it without
       // keeping the (uncontrolled) std mutex across scheduling points
@@ -2145,9 +2148,24 @@ pub fn plan(prop: &str, tier: Tier) -> Option<Plan> {
           }
         }
       }
+      // retain() (pruning closed subscribers) against everything else
+      for x in [vec![Op::Retain], vec![Op::Unsubscribe, Op::Retain], vec![Op::Retain, Op::NextA(1)]] {
+        for y in &s1 {
+          sc.push(script_scenario("C06", Shape::Subject, vec![x.clone(), y.clone()], Oracle::SubjectRules, c, CAP));
+        }
+        sc.push(script_scenario("C06", Shape::Subject, vec![x.clone(), vec![Op::NextA(1), Op::Subscribe]], Oracle::SubjectRules, c, CAP));
+      }
+      sc.push(script_scenario(
+        "C06",
+        Shape::Subject,
+        vec![vec![Op::Retain], vec![Op::NextA(1)], vec![Op::Subscribe]],
+        Oracle::SubjectRules,
+        if q { 1 } else { 2 },
+        CAP,
+      ));
       Some(Plan {
         scenarios: sc,
-        rule: "SubjectThreads shared by two threads (every pair of scripts of <=2 calls) and three threads (every triple of single calls) from {next(v), complete, error, subscribe a fresh probe, unsubscribe the early probe}; every schedule within the preemption bound; oracle from call/return stamps on the controlled schedule: each item at most once per subscriber, one common order, a subscriber whose subscribe() returned before next() started gets the item, one whose subscribe() started after next() returned does not, terminal exactly once for subscribers present, nothing after unsubscribe() returned".into(),
+        rule: "SubjectThreads shared by two threads (every pair of scripts of <=2 calls) and three threads (every triple of single calls) from {next(v), complete, error, subscribe a fresh probe, unsubscribe the early probe}, plus retain() against each of them; every schedule within the preemption bound; oracle from call/return stamps on the controlled schedule: each item at most once per subscriber, one common order, a subscriber whose subscribe() returned before next() started gets the item, one whose subscribe() started after next() returned does not, terminal exactly once for subscribers present, nothing after unsubscribe() returned".into(),
         bounds: json!({"preemptions": c}),
         assumptions: vec!["sequentially consistent memory".into()],
       })
